@@ -170,6 +170,32 @@ macro_rules! flags_reg {
     }};
 }
 
+/// Pat::read over register images with every byte value in every slot: the typed read decodes each byte exactly like
+/// PatMemoryType::from_bits and rejects (panics on) an image that contains an encoding from_bits rejects
+pub fn pat_images(r: &mut Rep, tag: &str) {
+    crate::simcpu::init();
+    let dflt: u64 = (0..8).fold(0u64, |x, i| x | (Pat::DEFAULT[i].bits() as u64) << (8 * i));
+    for slot in 0..8usize {
+        for b in 0..=255u64 {
+            let raw = (dflt & !(0xffu64 << (8 * slot))) | b << (8 * slot);
+            cpu().msr_set(MSR_PAT, raw);
+            let (rv, _) = stepped(|| Pat::read().map(|t| t.bits()));
+            r.ev(true);
+            let mut exp: Result<[u8; 8], ()> = Ok([0; 8]);
+            for i in 0..8 {
+                let byte = (raw >> (8 * i)) as u8;
+                match (PatMemoryType::from_bits(byte), &mut exp) {
+                    (Some(ty), Ok(e)) if ty.bits() == byte => e[i] = byte,
+                    _ => exp = Err(()),
+                }
+            }
+            if rv != exp {
+                r.viol(&format!("{}|Pat::read|does-not-decode-each-byte-like-PatMemoryType::from_bits-or-accepts-an-invalid-encoding", tag), &format!("patimage slot {} byte {:#x}", slot, b), &format!("{:x?} expected {:x?}", rv, exp));
+            }
+        }
+    }
+}
+
 fn control_regs(t: &mut T, a: &Args) {
     flags_reg!(t, a, "Cr0", Cr0, Cr0Flags, CR0, 0usize, cr);
     flags_reg!(t, a, "Cr4", Cr4, Cr4Flags, CR4, 4usize, cr);
@@ -622,6 +648,7 @@ fn star_etc(t: &mut T, a: &Args) {
             }
         }
     }
+    pat_images(t.r, "C16");
     // APIC base (preserving)
     let aall: u64 = APIC_BASE.iter().fold(0, |x, y| x | y.1);
     let aframes: Vec<u64> = vec![0xfee0_0000, 0x1000, 0, 0x000f_ffff_ffff_f000, 0x1234_5000];
